@@ -8,6 +8,11 @@
    engine `transport` executes them (several size assignments each) plus seeded random scripts and
    long key-rotation scripts on two real PeerManagers (or a PeerManager and a raw BOLT-8 peer built
    on PeerChannelEncryptor) joined by the harness socket pair, and records the observable events.
+   InitFirst is enumerated by TLC over EVERY message class (one well-formed message per wire message
+   type, spec/TransportMCfirst*.cfg): each is sent by the raw peer as its first message before Init
+   (alone, followed by Init, and in runs of three incl. start_batch + commitment_signed batches) and
+   after Init; the PeerManager's channel / routing / onion / custom message handlers are recorders
+   and every callback is an event of the trace ("delivered" / "callback").
 3. TLC validates the recorded trace against spec/TransportAbstract.tla (TransportTrace.tla).
 """
 import json, os, random, re, time
@@ -24,6 +29,13 @@ MC_CFGS_QUICK = [
     ("TransportMCraw.cfg", ["pe", "read", "tamper", "raw_init", "raw_garbage", "queue"]),
     ("TransportMCrawinit.cfg", ["read", "raw_init", "queue"]),
     ("TransportMCraw2.cfg", ["read", "tamper", "raw_init", "queue"]),
+]
+# first-message enumeration over all message classes (both tiers; all of their scripts are executed)
+MC_CFGS_FIRST = [
+    ("TransportMCfirst.cfg", ["read", "raw_init", "queue"]),
+    ("TransportMCfirst2.cfg", ["read", "raw_init", "queue"]),
+    ("TransportMCfirstb.cfg", ["read", "raw_init", "queue"]),
+    ("TransportMCfirstb2.cfg", ["read", "raw_init", "queue"]),
 ]
 MC_CFGS_THOROUGH = [
     ("TransportMCbig.cfg", ["queue", "pe", "read", "disc"]),
@@ -48,6 +60,40 @@ def last_op_counts(scripts):
 SIZE_CLASSES = [2, 3, 4, 17, 18, 19, 34, 60, 255, 256, 1000, 2047, 2048, 4096, 8192, 8193, 20000, 65533, 65534, 65535]
 
 
+def cfg_classes(cfg):
+    with open(os.path.join(vlib.SPEC, cfg)) as f:
+        m = re.search(r'Classes\s*=\s*\{([^}]*)\}', f.read())
+    return set(re.findall(r'"(\w+)"', m.group(1))) if m else set()
+
+
+def model_nodeliver():
+    with open(os.path.join(vlib.SPEC, "Transport.tla")) as f:
+        m = re.search(r'NoDeliver\s*==\s*\{([^}]*)\}', f.read())
+    return set(re.findall(r'"(\w+)"', m.group(1)))
+
+
+def first_message_positions(scripts, raw_side_of):
+    """(classes sent by the raw peer as its first message before its Init, classes sent after its Init)"""
+    pre, post = set(), set()
+    for s in scripts:
+        rs = raw_side_of.get(s["mode"])
+        seen_init, seen_msg = False, False
+        for o in s["ops"]:
+            if o["op"] == "raw_init":
+                seen_init = True
+            elif o["op"] == "queue" and o.get("d") == rs:
+                if seen_init:
+                    post.add(o["kind"])
+                elif not seen_msg:
+                    pre.add(o["kind"])
+                seen_msg = True
+    return pre, post
+
+
+def callback_of(cls):
+    return "custom" if cls == "custom" else "handle_" + cls
+
+
 def convert(script, rng, variant):
     """TLC script (abstract positions) -> engine script. Message sizes are not part of the model
     state: each variant gets its own seeded assignment (variant 0: all minimal)."""
@@ -55,9 +101,10 @@ def convert(script, rng, variant):
     for o in script["ops"]:
         o = dict(o)
         if o["op"] == "queue":
-            if variant > 0 and rng.random() < 0.1:
+            if variant > 0 and o.get("kind", "custom") == "custom" and rng.random() < 0.1:
                 o["kind"] = "chan"
-            o["size"] = 67 if o.get("kind") == "chan" else (2 if variant == 0 else rng.choice(SIZE_CLASSES))
+            # (the size of a message of a standard type is fixed by its class; the engine ignores it)
+            o["size"] = (2 if variant == 0 else rng.choice(SIZE_CLASSES)) if o.get("kind", "custom") == "custom" else 67
         if o["op"] == "raw_garbage":
             o["n"] = 50 if variant == 0 else rng.choice([1, 49, 50, 51, 66, 116, 200])
             o["flavour"] = rng.randrange(3)
@@ -190,6 +237,24 @@ def selftest(wd, good_lines):
             if dl:
                 muts.append(("last-message-lost", recs[:dl[-1]] + recs[dl[-1] + 1:]))
                 break
+    # (j) a handler callback for a message of the peer before the Init of that connection was received
+    k = first(lambda r: r["ev"] == "peer_connected")
+    if k is not None:
+        ins = {"ev": "callback", "run": recs[k]["run"], "s": recs[k]["s"], "role": "chan", "name": "selftest"}
+        muts.append(("callback-before-init", recs[:k] + [ins] + recs[k:]))
+    # (k) a message of a standard type that the raw peer sent before its Init reported as handed to a handler
+    for k2, r in enumerate(recs):
+        if r["ev"] == "raw_send" and r["kind"] in ("chan", "msg"):
+            run, d = r["run"], r["s"]
+            if any(x["run"] == run and x["ev"] == "raw_send" and x["kind"] == "init" for x in recs[:k2]):
+                continue
+            e = first(lambda x: x["run"] == run and x["ev"] == "read_begin" and x["s"] == 3 - d, k2)
+            if e is None:
+                continue
+            ins = {"ev": "delivered", "run": run, "s": 3 - d, "id": r["id"], "size": r["size"], "ok": True,
+                   "what": "selftest"}
+            muts.append(("first-message-handled-before-init", recs[:e + 1] + [ins] + recs[e + 1:]))
+            break
     # (i) a panic
     k = first(lambda r: r["ev"] == "read_end")
     if k is not None:
@@ -206,7 +271,9 @@ def selftest(wd, good_lines):
             rejected += 1
         else:
             names.append(name)
-    if rejected != len(muts) or len(muts) < 6:
+    if "callback-before-init" not in [n for n, _ in muts]:
+        raise vlib.ToolError("binding self-test: no run to insert a callback before Init into")
+    if rejected != len(muts) or len(muts) < 7:
         raise vlib.ToolError("binding self-test: %d of %d corrupted traces rejected (accepted: %s)" %
                              (rejected, len(muts), names))
     return {"mutations": len(muts), "rejected": rejected, "kinds": [n for n, _ in muts]}
@@ -222,7 +289,15 @@ def run(tier, seed):
     # ---- 1. design check + behaviour generation
     mcs = []
     scripts = []
-    for cfg, need in (MC_CFGS_THOROUGH if thorough else MC_CFGS_QUICK):
+    first_scripts = []
+    # the message classes: engine table = model constant = the model's split into deliverable / not
+    pl = vlib.run_bin(bins["transport"], ["--list-classes"], timeout=60)
+    table = json.loads(pl.stdout.strip().splitlines()[-1])
+    all_classes = set(table["deliverable"]) | set(table["nodeliver"])
+    if cfg_classes("TransportMCfirst.cfg") != all_classes or cfg_classes("TransportMCfirst2.cfg") != all_classes \
+            or model_nodeliver() != set(table["nodeliver"]) or len(all_classes) < 50:
+        raise vlib.ToolError("message classes of the engine and of spec/TransportMCfirst*.cfg / Transport.tla differ")
+    for cfg, need in (MC_CFGS_THOROUGH if thorough else MC_CFGS_QUICK) + MC_CFGS_FIRST:
         # (-coverage slows this model down 3x; the action coverage is measured on the emitted scripts)
         r = vlib.tlc_mc(PID, "TransportMC", cfg, workers=12, timeout=3000 if thorough else 600, coverage=False)
         if r["violated"]:
@@ -235,17 +310,27 @@ def run(tier, seed):
         vlib.log("[mc] %s: %d distinct states, %d generated, depth %d, %d scripts, %.0fs %s" %
                  (cfg, r["distinct"], r["states"], r["depth"], len(got), r["wall_s"], cnt))
         r["coverage"] = cnt
-        scripts += got
+        if (cfg, need) in MC_CFGS_FIRST:
+            first_scripts += got
+        else:
+            scripts += got
         r.pop("out")
         mcs.append((cfg, r))
     cap = 25000 if thorough else 4000
     if len(scripts) > cap:
         scripts = rng.sample(scripts, cap)
+    # vacuity of the first-message enumeration (a fact about the TLC output, not about the code under test)
+    pre, post = first_message_positions(first_scripts, {"raw1": 1, "raw2": 2})
+    if pre != all_classes or post != set(table["deliverable"]):
+        raise vlib.ToolError("first-message enumeration incomplete: never first before Init: %s; never after Init: %s" %
+                             (sorted(all_classes - pre), sorted(set(table["deliverable"]) - post)))
     nvar = 3 if thorough else 2
     conv = []
     for v in range(nvar):
         for s in scripts:
             conv.append(convert(s, rng, v))
+    for s in first_scripts:
+        conv.append(convert(s, rng, 0))
     spath = os.path.join(wd, "scripts.ndjson")
     with open(spath, "w") as f:
         for s in conv:
@@ -269,6 +354,14 @@ def run(tier, seed):
         vacuity.append("no run went past two key rotations")
     if summ["tampers"] * 20 < summ["runs"] or summ["partial_writes"] * 20 < summ["runs"]:
         vacuity.append("too few tamper / back-pressure operations took effect")
+    if summ["class_table_errors"]:
+        vacuity.append("message class table: %s" % summ["class_table_errors"][:3])
+    miss = sorted(all_classes - set(summ["first_message_classes_read"]))
+    if miss:
+        vacuity.append("classes never read by a PeerManager as first message before Init: %s" % miss)
+    miss = sorted(c for c in table["deliverable"] if callback_of(c) not in summ["delivered_callbacks"])
+    if miss:
+        vacuity.append("recording handlers never saw (after Init): %s" % miss)
 
     # ---- 3. trace validation (the oracle)
     total, fails = validate_chunked(wd, tpath, 900000)
@@ -333,6 +426,10 @@ def run(tier, seed):
         "mc_runs": [{"cfg": c, "distinct": r["distinct"], "generated": r["states"], "depth": r["depth"],
                      "action_coverage": r["coverage"], "wall_s": round(r["wall_s"], 1)} for c, r in mcs],
         "scripts_from_tlc": len(scripts), "size_variants_per_script": nvar, "random_scripts": nrand,
+        "first_message_scripts_from_tlc": len(first_scripts), "message_classes": sorted(all_classes),
+        "message_classes_read_as_first_message_before_init": len(summ["first_message_classes_read"]),
+        "handler_callbacks_observed_after_init": len(summ["delivered_callbacks"]),
+        "other_handler_callbacks": summ["other_callbacks"],
         "rotation_scripts": rots, "events_validated": total,
         "messages_queued": summ["queued"], "messages_delivered": summ["delivered"],
         "read_events": summ["reads"], "tamper_ops_applied": summ["tampers"],
@@ -347,6 +444,12 @@ def run(tier, seed):
         "encrypt and decrypt is not observable (the BOLT-8 vectors in the unit tests cover that)",
         "single-threaded driver: no concurrent read_event / process_events on one PeerManager",
         "a peer that sends messages after its own Init but before having received ours is not treated as an "
-        "InitFirst violation of the receiving node",
+        "InitFirst violation of the receiving node (the PeerManager queues its Init when the handshake completes, "
+        "before it can decrypt any message; the code has no later gate)",
+        "InitFirst is judged on handler callbacks: a message before Init that is silently swallowed without a "
+        "disconnect is not reported (the design model expects Err; the property text only forbids acting on it)",
+        "messages without a one-to-one callback (ping, pong, warning, error, start_batch and batched "
+        "commitment_signed, gossip_timestamp_filter, unknown types) are modelled as first messages only; after "
+        "Init they occur in the random scripts and are judged by InitFirst / NoPanic / the disconnect rules only",
     ], time.time() - t0, nviol)
     return nviol
